@@ -276,6 +276,11 @@ def spec_accepts(spec_line, impl_line):
 def match_line(pattern, line):
     """token-wise equality; a `*` inside a pattern token matches any suffix of that token"""
     pt, lt = pattern.split(), line.split()
+    if pt == ["*"]:
+        return True               # the model makes no statement about this answer
+    if pt and pt[-1] == "**":     # any tail
+        pt = pt[:-1]
+        lt = lt[:len(pt)]
     if len(pt) != len(lt):
         return False
     for a, b in zip(pt, lt):
